@@ -29,26 +29,39 @@ type ops = {
   range : string -> string -> (string * rid) list;
 }
 
-let mk (type k) (parse : string -> k) (show : k -> string)
+(* Besides the ordered-container specification the same composite keys go through the block skip-list model
+   (Model/SkipList.v, capacity 4 so that nodes split and disappear all the time; the level of a new node is an input
+   of the model: any value, here a counter): its level-0 walk must equal the specification's content after every
+   operation (theorem skiplist_refines_container, re-evaluated on the real operation sequences). *)
+let mk (type k) (parse : string -> k) (show : k -> string) (key_of : k -> rid -> n list)
     (ins : k -> rid -> omap -> omap) (del : k -> rid -> omap -> omap)
     (upd : k -> rid -> k -> rid -> omap -> omap) (scan : k -> omap -> rid list)
     (range : k option -> k option -> omap -> (k * rid) list) : ops =
   let st = ref om_empty in
+  let sl = ref (sl_empty (nat_of_int 4) (nat_of_int 4)) in
+  let lv = ref 0 in
+  let sl_do f = (match f !sl with Ok0 s' -> sl := s' | Err _ -> failwith "skip-list model: out of fuel / dangling") in
+  let agree () =
+    (match sl_to_list !sl with
+     | Ok0 l -> if l <> !st || not (sl_checkb !sl) then failwith "skip-list model disagrees with the container specification"
+     | Err _ -> failwith "skip-list model: walk failed") in
+  let sl_ins k r = incr lv; sl_do (sl_insert (key_of k r) r (nat_of_int (1 + !lv mod 4))) in
+  let sl_del k r = sl_do (sl_remove (key_of k r)) in
   let bound s = if s = "-" then None else Some (parse s) in
-  { reset = (fun () -> st := om_empty);
-    ins = (fun k r -> st := ins (parse k) r !st);
-    del = (fun k r -> st := del (parse k) r !st);
-    upd = (fun k r k2 r2 -> st := upd (parse k) r (parse k2) r2 !st);
+  { reset = (fun () -> st := om_empty; sl := sl_empty (nat_of_int 4) (nat_of_int 4));
+    ins = (fun k r -> st := ins (parse k) r !st; sl_ins (parse k) r; agree ());
+    del = (fun k r -> st := del (parse k) r !st; sl_del (parse k) r; agree ());
+    upd = (fun k r k2 r2 -> st := upd (parse k) r (parse k2) r2 !st; sl_del (parse k) r; sl_ins (parse k2) r2; agree ());
     scan = (fun k -> scan (parse k) !st);
     range = (fun lo hi -> List.map (fun (k, r) -> (show k, r)) (range (bound lo) (bound hi) !st)) }
 
 let () =
   let ty = if Array.length Sys.argv > 1 then Sys.argv.(1) else "i" in
   let o = match ty with
-    | "f" -> mk ni (fun b -> string_of_int (int_of_n b)) ixf_insert ixf_delete ixf_update ixf_scan_key ixf_range
-    | "s" -> mk (fun h -> if h = "-" then [] else bytes_of_hex h) (fun b -> if b = [] then "-" else hex_of_bytes b)
+    | "f" -> mk ni (fun b -> string_of_int (int_of_n b)) (ix_key enc_f32_key) ixf_insert ixf_delete ixf_update ixf_scan_key ixf_range
+    | "s" -> mk (fun h -> if h = "-" then [] else bytes_of_hex h) (fun b -> if b = [] then "-" else hex_of_bytes b) (ix_key enc_str_key)
                ixs_insert ixs_delete ixs_update ixs_scan_key ixs_range
-    | _ -> mk zi (fun z -> string_of_int (int_of_z z)) ixi_insert ixi_delete ixi_update ixi_scan_key ixi_range in
+    | _ -> mk zi (fun z -> string_of_int (int_of_z z)) (ix_key enc_int_key) ixi_insert ixi_delete ixi_update ixi_scan_key ixi_range in
   let rid p s = (zi p, ni s) in
   iter_lines (fun line ->
     let line = String.trim line in
@@ -64,6 +77,6 @@ let () =
           | ["range"; lo; hi] ->
             "ok:" ^ String.concat ";" (List.map (fun (k, r) -> Printf.sprintf "%s@%s" k (show_rid r)) (o.range lo hi))
           | _ -> "err:bad op"
-        with Failure _ -> "err:bad op" in
+        with Failure m -> if String.length m > 9 && String.sub m 0 9 = "skip-list" then "err:" ^ m else "err:bad op" in
       print_endline out
     end)
